@@ -1524,15 +1524,37 @@ func (up4 *UP4) modifyUP4ForwardingConfiguration(pdrs []pdr, allFARs []far, qers
 }
 
 func (up4 *UP4) sendCreate(all PacketForwardingRules, updated PacketForwardingRules) error {
+	countersAllocated := 0
+	// revert removes, as far as possible, what a failed establishment has configured so far: the
+	// request is rejected and nothing would ever delete it.
+	revert := func() {
+		if err := up4.modifyUP4ForwardingConfiguration(all.pdrs, all.fars, all.qers, p4.Update_DELETE); err != nil {
+			logger.PfcpLog.Warnf("failed to remove the entries of a rejected session: %v", err)
+		}
+
+		up4.resetMeters(updated.qers)
+
+		for i := 0; i < countersAllocated; i++ {
+			up4.releaseCounterID(preQosCounterID, uint64(all.pdrs[i].ctrID))
+		}
+
+		for _, p := range updated.pdrs {
+			up4.removeUeAddrAndFSEIDMappings(p)
+		}
+	}
+
 	for i := range updated.pdrs {
 		val, err := up4.allocateCounterID(preQosCounterID)
 		if err != nil {
+			revert()
 			return ErrOperationFailedWithReason("Counter ID allocation", err.Error())
 		}
 
 		all.pdrs[i].ctrID = uint32(val)
+		countersAllocated++
 
 		if err := up4.resetCounter(all.pdrs[i]); err != nil {
+			revert()
 			return ErrOperationFailedWithReason("Reset Counters", err.Error())
 		}
 	}
@@ -1542,19 +1564,22 @@ func (up4 *UP4) sendCreate(all PacketForwardingRules, updated PacketForwardingRu
 	}
 
 	if err := up4.configureMeters(updated.qers); err != nil {
+		revert()
 		return err
 	}
 
 	newTunnelPeerUsers, err := up4.updateTunnelPeersBasedOnFARs(updated.fars)
 	if err != nil {
-		// TODO: revert operations (e.g. reset counter)
 		up4.withdrawTunnelPeers(newTunnelPeerUsers)
+		revert()
+
 		return err
 	}
 
 	if err := up4.modifyUP4ForwardingConfiguration(all.pdrs, all.fars, all.qers, p4.Update_INSERT); err != nil {
-		// TODO: revert operations (e.g. reset counter)
+		revert()
 		up4.withdrawTunnelPeers(newTunnelPeerUsers)
+
 		return err
 	}
 
